@@ -3,6 +3,8 @@
   Property theorems only (model: PS/Model/Parse.lean, notation and ⟦·⟧: PS/Model/TyExpr.lean,
   helper lemmas: PS/Proofs/ParseType.lean, PS/Proofs/ParseProg.lean, and for the character
   level PS/Proofs/ParseTypeChars.lean, PS/Proofs/ParseProgChars.lean).
+  The type theorems hold for the code with and without the repair of C15-F4 (flag `s`); the
+  `C15_reject_*` theorems are about the repaired code, `finding_C15_F4` about the other.
 -/
 import PS.Proofs.ParseType
 import PS.Proofs.ParseProg
@@ -16,22 +18,22 @@ open PS TyExpr
 /-- **Token level.**  For every expression `e` of the documented notation (any nesting; names are
     words, `optional` is not a generic's name), the stack / infix-stack / or_flag machine of
     `auto_type`, run on the token stream of `e`, returns exactly the object `⟦e⟧`. -/
-theorem C15_type_tokens (e : TyExpr) (hwf : e.wf = true) :
-    autoTypeToks e.toks = .ok e.denote :=
+theorem C15_type_tokens (s : Bool) (e : TyExpr) (hwf : e.wf = true) :
+    autoTypeToks s e.toks = .ok e.denote :=
   top_of_I (parse_all e hwf).2.1
 
 /-- n-ary function types are right-nested arrows: `a -> b -> c` denotes `Arrow(a, Arrow(b, c))`,
     and this is what the parser returns. -/
-theorem C15_type_arrows_right (a b c : TyExpr) (h : (arrow a (arrow b c)).wf = true) :
-    autoTypeToks (arrow a (arrow b c)).toks
+theorem C15_type_arrows_right (s : Bool) (a b c : TyExpr) (h : (arrow a (arrow b c)).wf = true) :
+    autoTypeToks s (arrow a (arrow b c)).toks
       = .ok (TyO.arrow a.denote (TyO.arrow b.denote c.denote)) := by
-  rw [C15_type_tokens _ h]; rfl
+  rw [C15_type_tokens s _ h]; rfl
 
 /-- a parenthesised arrow on the left is an argument of function type -/
-theorem C15_type_arrows_left (a b c : TyExpr) (h : (arrow (arrow a b) c).wf = true) :
-    autoTypeToks (arrow (arrow a b) c).toks
+theorem C15_type_arrows_left (s : Bool) (a b c : TyExpr) (h : (arrow (arrow a b) c).wf = true) :
+    autoTypeToks s (arrow (arrow a b) c).toks
       = .ok (TyO.arrow (TyO.arrow a.denote b.denote) c.denote) := by
-  rw [C15_type_tokens _ h]; rfl
+  rw [C15_type_tokens s _ h]; rfl
 
 /-- the alternatives of `a | b` are those of `a` and those of `b` (in the order chosen by the
     library's `__or__`; equality of Sum objects ignores the order) -/
@@ -47,10 +49,10 @@ theorem C15_union_members (a b : TyO) : (members (tyOr a b)).Perm (members a ++ 
 def exFb : TyExpr := .fvar "b".toList (.union (.prim "int".toList) (.prim "bool".toList))
 def exE : TyExpr :=
   arrow (.generic "list".toList (.var "a".toList)) (arrow (arrow (.var "a".toList) exFb) (.optional exFb))
-example : exE.wf = true ∧ autoTypeToks exE.toks = .ok exE.denote ∧
+example : exE.wf = true ∧ autoTypeToks true exE.toks = .ok exE.denote ∧
     render (fun k => if k % 3 = 0 then 1 else 0) exE
       = " 'a list-> ('a-> 'b[int |bool] )->'b [int| bool]optional ".toList :=
-  ⟨by decide, C15_type_tokens _ (by decide), by decide +kernel⟩
+  ⟨by decide, C15_type_tokens true _ (by decide), by decide +kernel⟩
 
 /-- **Character level, tokenizer.**  For every well-formed expression `e` of the notation and
     EVERY spacing `sp : Nat → Nat` (any number of blanks, including none, before and after every
@@ -61,45 +63,124 @@ example : exE.wf = true ∧ autoTypeToks exE.toks = .ok exE.denote ∧
     into exactly the token tree of `e`.  No spacing is excluded: an operator is always followed
     by the start of an operand (a letter, `'` or `(`, where the infix token stops), never by
     `|`, `[` or another operator. -/
-theorem C15_type_tokenize (sp : Spacing) (e : TyExpr) (hwf : e.wf = true) :
-    tokenize ((render sp e).length + 1) (render sp e) = .ok e.toks :=
+theorem C15_type_tokenize (s : Bool) (sp : Spacing) (e : TyExpr) (hwf : e.wf = true) :
+    tokenize s ((render sp e).length + 1) (render sp e) = .ok e.toks :=
   tokenize_render sp e hwf
 
 /-- **Character level, end to end.**  `auto_type` (the model `autoTypeText`, with the fuel the
     driver runs it with) applied to the text of `e` under any spacing returns exactly `⟦e⟧`. -/
-theorem C15_type (sp : Spacing) (e : TyExpr) (hwf : e.wf = true) :
-    autoTypeText (render sp e) = .ok e.denote := by
+theorem C15_type (s : Bool) (sp : Spacing) (e : TyExpr) (hwf : e.wf = true) :
+    autoTypeText s (render sp e) = .ok e.denote := by
   unfold autoTypeText
-  rw [autoType_of_tokenize _ _ _ (C15_type_tokenize sp e hwf)]
-  exact C15_type_tokens e hwf
+  rw [autoType_of_tokenize _ _ _ (C15_type_tokenize s sp e hwf)]
+  exact C15_type_tokens s e hwf
 
 /-- the character-level machine agrees with the token-level machine on every text that the
     tokenizer accepts (also outside the notation) -/
-theorem C15_type_machine (d : Nat) (el : Str) (ts : List Tok) (h : tokenize d el = .ok ts) :
-    autoType d el = autoTypeToks ts :=
+theorem C15_type_machine (s : Bool) (d : Nat) (el : Str) (ts : List Tok) (h : tokenize s d el = .ok ts) :
+    autoType s d el = autoTypeToks s ts :=
   autoType_of_tokenize d el ts h
 
 -- non-vacuity: the nested type above written with odd spacing (no blank around `->`, blanks
 -- inside the parentheses and brackets, between `'b` and `[`, at both ends)
-example : autoTypeText " 'a list-> ('a-> 'b[int |bool] )->'b [int| bool]optional ".toList
+example : autoTypeText true " 'a list-> ('a-> 'b[int |bool] )->'b [int| bool]optional ".toList
     = .ok exE.denote := by
-  have h := C15_type (fun k => if k % 3 = 0 then 1 else 0) exE (by decide)
+  have h := C15_type true (fun k => if k % 3 = 0 then 1 else 0) exE (by decide)
   have e : render (fun k => if k % 3 = 0 then 1 else 0) exE
       = " 'a list-> ('a-> 'b[int |bool] )->'b [int| bool]optional ".toList := by decide +kernel
   rw [e] at h; exact h
 -- the same text is really cut into the token tree of `exE` (8 top-level tokens), and no
 -- blank at all is needed where no two words meet: `('a->'b)->'a`
-example : tokenize 99 " 'a list-> ('a-> 'b[int |bool] )->'b [int| bool]optional ".toList
+example : tokenize true 99 " 'a list-> ('a-> 'b[int |bool] )->'b [int| bool]optional ".toList
     = .ok exE.toks ∧ exE.toks.length = 8 := by decide +kernel
 example : render (fun _ => 0) (arrow (arrow (.var "a".toList) (.var "b".toList)) (.var "a".toList))
       = "('a->'b)->'a".toList ∧
-    autoTypeText "('a->'b)->'a".toList
+    autoTypeText true "('a->'b)->'a".toList
       = .ok (TyO.arrow (TyO.arrow (TyO.poly "a".toList) (TyO.poly "b".toList)) (TyO.poly "a".toList)) := by
   refine ⟨by decide +kernel, ?_⟩
-  have h := C15_type (fun _ => 0) (arrow (arrow (.var "a".toList) (.var "b".toList)) (.var "a".toList)) (by decide)
+  have h := C15_type true (fun _ => 0) (arrow (arrow (.var "a".toList) (.var "b".toList)) (.var "a".toList)) (by decide)
   have e : render (fun _ => 0) (arrow (arrow (.var "a".toList) (.var "b".toList)) (.var "a".toList))
       = "('a->'b)->'a".toList := by decide +kernel
   rw [e] at h; exact h
+
+/-! ## malformed type texts (finding C15-F4 and its repair)
+
+  The type parser of the model takes a flag `s`: `false` = the code as it was (a closing bracket
+  where a token must start is read as an infix operator; infix operators and `|` that miss an
+  operand are silently dropped), `true` = the code with fixes_proposed/C15-F4.diff (three
+  assertions).  All theorems above hold for both values of `s`: the assertions of the repair never
+  fire on a text of the notation.  With the repair the malformed texts of the finding are
+  rejected, for every expression and every spacing: -/
+
+/-- **an infix operator that misses its right operand** (`int ->`, `'a list -> int *`):
+    `AssertionError`, for every well-formed `e`, every operator symbol and every spacing -/
+theorem C15_reject_dangling_after (sp : Spacing) (e : TyExpr) (hwf : e.wf = true) (w : Str)
+    (hw : goodOp w = true) :
+    autoTypeText true (renderToks sp (e.toks ++ [.node (.op w) []]) none 0).1 = .error .assertion := by
+  obtain ⟨h1, h2⟩ := readable_snoc e hwf (.node (.op w) []) (by simp [tokOK, labelOK, hw])
+  rw [autoTypeText_renderToks sp _ h1 h2]
+  exact reject_op_after e hwf w
+
+/-- **an infix operator that misses its left operand** (`-> int`, `-> int list`) -/
+theorem C15_reject_dangling_before (sp : Spacing) (e : TyExpr) (hwf : e.wf = true) (w : Str)
+    (hw : goodOp w = true) :
+    autoTypeText true (renderToks sp (.node (.op w) [] :: e.toks) none 0).1 = .error .assertion := by
+  obtain ⟨h1, h2⟩ := readable_cons e hwf w hw
+  rw [autoTypeText_renderToks sp _ h1 h2]
+  exact reject_op_before w e.toks
+
+/-- **a `|` that misses its right alternative** (`int |`) -/
+theorem C15_reject_dangling_bar (sp : Spacing) (e : TyExpr) (hwf : e.wf = true) :
+    autoTypeText true (renderToks sp (e.toks ++ [.node .bar []]) none 0).1 = .error .assertion := by
+  obtain ⟨h1, h2⟩ := readable_snoc e hwf (.node .bar []) (by simp [tokOK, labelOK])
+  rw [autoTypeText_renderToks sp _ h1 h2]
+  exact reject_bar_after e hwf
+
+/-- token level: two infix operators in a row (`int -> -> int`) are rejected whatever follows -/
+theorem C15_reject_double_operator (e : TyExpr) (hwf : e.wf = true) (w1 w2 : Str) (ts : List Tok) :
+    autoTypeToks true (e.toks ++ .node (.op w1) [] :: .node (.op w2) [] :: ts) = .error .assertion :=
+  reject_op_op e hwf w1 w2 ts
+
+/-- **an unmatched closing bracket**: wherever the parser is about to read a token (at the start
+    of the text or after any number of tokens) and finds `)` or `]`, it raises — for every rest of
+    the text, every state of the machine and inside every nesting of parentheses -/
+theorem C15_reject_unmatched_close (rec : Str → Res TyO) (fuel : Nat) (c : Char) (rest : Str)
+    (st : St) (hc : c = ')' ∨ c = ']') :
+    nextToken true (c :: rest) = .error .assertion ∧
+    loopC true rec (fuel + 1) (c :: rest) st = .error .assertion :=
+  ⟨nextToken_close c rest hc, loopC_close rec fuel c rest st hc⟩
+
+-- non-vacuity: the texts of the finding and a few more, with odd spacing
+example : render (fun _ => 0) exE = "'a list->('a->'b[int|bool])->'b[int|bool]optional".toList ∧
+    (renderToks (fun k => k % 2) (exE.toks ++ [.node (.op "->".toList) []]) none 0).1
+      = "'a  list-> ('a ->'b [int |bool ]) ->'b [int |bool ]optional ->".toList ∧
+    (renderToks (fun k => k % 2) (.node (.op "*".toList) [] :: exE.toks) none 0).1
+      = "* 'a list ->( 'a-> 'b[ int| bool] )-> 'b[ int| bool] optional".toList := by
+  decide +kernel
+example : autoTypeText true "int)".toList = .error .assertion ∧
+    autoTypeText true "int ->".toList = .error .assertion ∧
+    autoTypeText true "-> int".toList = .error .assertion ∧
+    autoTypeText true "-> int list".toList = .error .assertion ∧
+    autoTypeText true "int |".toList = .error .assertion ∧
+    autoTypeText true "int -> -> int".toList = .error .assertion ∧
+    autoTypeText true "(int ->) -> int".toList = .error .assertion ∧
+    autoTypeText true "'a[int]] -> int".toList = .error .assertion ∧
+    autoTypeText true "(int -> int)) list".toList = .error .assertion := by decide +kernel
+
+/-- **Finding C15-F4** (the code without the repair): the same texts are accepted — the closing
+    bracket is read as an infix operator and dropped like the other dangling operators; when the
+    text has other operators the dropped one is not even the dangling one (`int -> bool *` is
+    read as the generic `*` applied to int and bool: the arrow is lost). -/
+theorem finding_C15_F4 :
+    autoTypeText false "int)".toList = .ok (TyO.prim "int".toList) ∧
+    autoTypeText false "int ->".toList = .ok (TyO.prim "int".toList) ∧
+    autoTypeText false "-> int".toList = .ok (TyO.prim "int".toList) ∧
+    autoTypeText false "int |".toList = .ok (TyO.prim "int".toList) ∧
+    autoTypeText false "-> int list".toList
+      = .ok (TyO.arrow (TyO.prim "int".toList) (TyO.prim "list".toList)) ∧
+    autoTypeText false "int -> bool *".toList
+      = .ok (.node (.generic "*".toList true) [TyO.prim "int".toList, TyO.prim "bool".toList]) := by
+  decide +kernel
 
 /-! ## programs
 
